@@ -133,7 +133,7 @@ Proof.
   - apply try_of_ext.
     + intros x. apply IHb.
     + destruct c; simpl in *; auto. intros x. destruct f; simpl; apply IHc.
-    + destruct f; simpl in *; auto. intros x. apply IHf.
+    + destruct f; simpl in *; auto.
 Qed.
 
 Theorem call_form_irrelevant_one pol via c f body cid fl it s :
